@@ -138,6 +138,13 @@ impl<L: Localize> OpeningHours<L> {
             .flatten()
     }
 
+    /// Verification hook (only with `--cfg opening_hours_verif`): the lower bound the iterator uses
+    /// to skip days on which nothing can change, as `next_change_hint` computes it.
+    #[cfg(opening_hours_verif)]
+    pub fn verif_next_change_hint(&self, date: NaiveDate) -> Option<NaiveDate> {
+        self.next_change_hint(date)
+    }
+
     /// Get the schedule at a given day.
     pub fn schedule_at(&self, date: NaiveDate) -> Schedule {
         #[cfg(test)]
